@@ -9,7 +9,7 @@
    lo <= hi, at least one grid point, strictly increasing, all inside [lo, hi].
    [nthR i l] is [nth i l 0]. *)
 From Coq Require Import ZArith Reals List Bool.
-From Verif Require Import Base.Num Base.Vec C14.Model C14.Proofs C14.ProofsIndex.
+From Verif Require Import Base.Num Base.Vec C14.Model C14.Proofs C14.ProofsIndex C14.ProofsUniform.
 Import ListNotations.
 Local Open Scope R_scope.
 
@@ -125,3 +125,81 @@ Proof. exact index_nd. Qed.
 Theorem in_set_means_inside_every_interval : forall (p : list (axis R)) (x : list R),
   in_set p x = true <-> Forall2 (fun ax v => a_lo ax <= v <= a_hi ax) p x.
 Proof. exact in_set_spec. Qed.
+
+(* ------------------------------------------------------------------ *)
+(* T1. Uniform partitions (uniform_partition_fromintv -> uniform_grid_fromintv, the four
+   gmin/gmax formulas + np.linspace): for every n >= 2, every interval xmin < xmax and
+   every per-side nodes_on_bdry pair fl = (b_l, b_r), with
+        s = (xmax - xmin) / (n - (b_l + b_r)/2)          [half_count fl = (b_l + b_r)/2]
+   the result is a valid partition with n nodes  x_i = xmin + (0 | s/2) + i*s,
+   "cell side times cell count reproduces the extent":  s * (n - (b_l+b_r)/2) = xmax - xmin,
+   cell_sides reports exactly s, the nodes sit on the boundary exactly on the requested
+   sides (nodes_on_bdry_byaxis = fl), and the boundary cell fractions are 1/2 resp. 1. *)
+Theorem uniform_partition_side_count_extent_partial : forall (n : Z) (xmin xmax : R) (fl : bool * bool),
+  (2 <= n)%Z -> xmin < xmax ->
+  let s := (xmax - xmin) / (IZR n - half_count fl) in
+  let ax := mkAxis xmin xmax (ugrid_axis n xmin xmax fl) in
+  valid ax /\
+  length (a_cs ax) = Z.to_nat n /\
+  (forall i, (i < Z.to_nat n)%nat ->
+     nthR i (a_cs ax) = xmin + (if fst fl then 0 else s / 2) + INR i * s) /\
+  s * (IZR n - half_count fl) = xmax - xmin /\
+  cell_side ax = Some s /\
+  nodes_on_bdry ax = fl /\
+  bdry_fracs ax = (if fst fl then 1 / 2 else 1, if snd fl then 1 / 2 else 1).
+Proof. exact uniform_axis_spec. Qed.
+Print Assumptions uniform_partition_side_count_extent_partial.
+
+(* shape 1: the single node goes to xmin / xmax / the midpoint, cell_sides reports the extent *)
+Theorem uniform_partition_single_point : forall (xmin xmax : R) (fl : bool * bool), xmin <= xmax ->
+  let ax := mkAxis xmin xmax (ugrid_axis 1 xmin xmax fl) in
+  valid ax /\
+  a_cs ax = [match fl with (true, _) => xmin | (false, true) => xmax | (false, false) => (xmin + xmax) / 2 end] /\
+  cell_side ax = Some (xmax - xmin).
+Proof. exact uniform_single_point_spec. Qed.
+Print Assumptions uniform_partition_single_point.
+
+(* Full statement (all n >= 1):  cell_side * (n - (b_l+b_r)/2) = extent  and  nodes_on_bdry = fl.
+   FALSE of the faithful model for n = 1 when a node is requested on the boundary of a
+   non-degenerate interval (finding C14/uniform-one-point-nodes-on-bdry). *)
+Theorem uniform_partition_side_count_extent_refuted :
+  exists (xmin xmax : R) (fl : bool * bool), xmin < xmax /\
+    forall sd, cell_side (mkAxis xmin xmax (ugrid_axis 1 xmin xmax fl)) = Some sd ->
+    sd * (1 - half_count fl) <> xmax - xmin.
+Proof. exact uniform_single_point_refuted. Qed.
+Theorem uniform_partition_placement_refuted :
+  exists (xmin xmax : R), xmin < xmax /\
+    nodes_on_bdry (mkAxis xmin xmax (ugrid_axis 1 xmin xmax (true, true))) <> (true, true).
+Proof. exact uniform_single_point_placement_refuted. Qed.
+
+(* T1. Parameter completion in uniform_partition: whichever ONE of min_pt, max_pt, shape,
+   cell_sides is left out (or none), a consistent quadruple
+        xmax = xmin + (n - (b_l+b_r)/2) * dx,  dx <> 0
+   is completed to the same (xmin, xmax, n).  [rnd] is Python's round(); all that is used is
+   that it returns k on the float k. *)
+Theorem every_consistent_parameter_subset_gives_the_same_axis :
+  forall (rnd : R -> Z) (d : dropped) (xmin xmax : R) (n : Z) (dx : R) (fl : bool * bool),
+  (forall k : Z, rnd (IZR k) = k) -> dx <> 0 ->
+  xmax = xmin + (IZR n - half_count fl) * dx ->
+  complete_given rnd d xmin xmax n dx fl = Ok (xmin, xmax, n).
+Proof. exact complete_axis_consistent. Qed.
+Print Assumptions every_consistent_parameter_subset_gives_the_same_axis.
+
+(* N-d, a different parameter dropped in every axis: uniform_partition(...) is the partition
+   uniform_partition_fromintv(IntervalProd(xmin, xmax), shape, nodes_on_bdry). *)
+Theorem every_consistent_parameter_subset_gives_the_same_partition :
+  forall (rnd : R -> Z) (l : list axis_spec),
+  (forall k : Z, rnd (IZR k) = k) -> Forall consistent l ->
+  uniform_partition rnd (map (fun a => fst (fst (fst (g4 a)))) l) (map (fun a => snd (fst (fst (g4 a)))) l)
+                    (map (fun a => snd (fst (g4 a))) l) (map (fun a => snd (g4 a)) l) (map s_fl l)
+  = upart_fromintv (map s_min l) (map s_max l) (map s_n l) (map s_fl l).
+Proof. exact uniform_partition_same. Qed.
+Print Assumptions every_consistent_parameter_subset_gives_the_same_partition.
+
+(* ... and that partition has exactly the requested cell side *)
+Theorem completed_partition_has_the_requested_cell_side :
+  forall (xmin xmax : R) (n : Z) (dx : R) (fl : bool * bool),
+  (2 <= n)%Z -> 0 < dx -> xmax = xmin + (IZR n - half_count fl) * dx ->
+  xmin < xmax /\ cell_side (mkAxis xmin xmax (ugrid_axis n xmin xmax fl)) = Some dx.
+Proof. exact consistent_side. Qed.
+Print Assumptions completed_partition_has_the_requested_cell_side.
